@@ -162,6 +162,12 @@ Definition erase_cells (g : grid) (count : N) (a : attrs) : res grid :=
   upd_current_row g (fun rw =>
     for_range (N.to_nat (hi - pcol g)) (pcol g) (fun col r => row_erase r col a) rw).
 
+(* one iteration of the ICH loop *)
+Definition ins_step (wide : bool) (p : N) (r : row) : res row :=
+  do r1 <- (if wide then row_upd r p (cell_set_cont false) else Ok r);
+  do r2 <- row_insert r1 p cell_new;
+  (if wide then row_upd r2 p (cell_set_cont true) else Ok r2).
+
 (* Grid::insert_cells, after the D3 repair *)
 Definition insert_cells (g : grid) (count : N) : res grid :=
   do wide <- (if pcol g <? gcols g
@@ -169,10 +175,7 @@ Definition insert_cells (g : grid) (count : N) : res grid :=
               else Ok false);
   do room <- sub16 (gcols g) (pcol g);
   upd_current_row g (fun rw =>
-    do rw' <- iter_res (N.to_nat (N.min count room)) (fun r =>
-      do r1 <- (if wide then row_upd r (pcol g) (cell_set_cont false) else Ok r);
-      do r2 <- row_insert r1 (pcol g) cell_new;
-      (if wide then row_upd r2 (pcol g) (cell_set_cont true) else Ok r2)) rw;
+    do rw' <- iter_res (N.to_nat (N.min count room)) (ins_step wide (pcol g)) rw;
     row_truncate rw' (gcols g)).
 
 (* Grid::delete_cells *)
